@@ -316,7 +316,7 @@ local macro "c13_eval" "[" ts:Lean.Parser.Tactic.simpLemma,* "]" : tactic => `(t
   simp [$ts,*, resOfRoot, runCalls, renderRoot, renderList, renderNode, renderBranches,
     renderBlockBody, evalCond, wrapFailAt, wrapAt, M.mapFail, M.bind, M.pure, M.fail, M.getVar, writeM, trimLeftM, trimRightM, flushM,
     captureM, Prog.bind, Prog.mapFail, Prog.runPure, Prog.calls, bind, pure, mkCtx, hyPrims, M.setVar, M.getEnv, M.ofRes, evaluate,
-    eval, Env.set, Env.get, GoVal.toLiquid, GoVal.unwrap, GoVal.isNil, GoVal.test, hyOut, writeAllM, Status.wrap, cyclesOf, errorfAt,
+    eval, Env.set, Env.get, GoVal.toLiquid, GoVal.unwrap, GoVal.isNil, GoVal.test, hyOut, writeAllM, writeVerbatimM, Status.wrap, cyclesOf, errorfAt,
     wrapError])
 
 /-- with `v` = `"x"` the source renders `axbc␠` -/
